@@ -74,6 +74,15 @@ Streams:
              inside the hygiene domain through the command line.
   alias      two steps (or two parameters) sharing ONE mapping through a YAML
              anchor / alias (the loader returns the same dict for both).
+  desc       the description block with extra keys of every type (int, float,
+             bool, null, list, mapping, empty / unicode / multi-line string; as raw
+             texts also date, timestamp, hex, inf, nan, binary, set), each under
+             every logging configuration.
+  Logging is a dimension of every case: "default" (quiet library use), "info"
+  (what `maestro run` sets up by default, -d 2) and "debug" (-d 1): root and
+  maestrowf loggers at that level with a formatting handler on a sink.  The
+  configuration alternates over the cases (a tag ending @log=<level> fixes it),
+  is stored in the case and honoured by --replay.
   On every document the three accessors are called TWICE on the loaded
   specification and must answer the same (non-destructive), env.sources must
   come back verbatim and in order, and every step of the built Study must have
@@ -698,12 +707,93 @@ def altered_edges(ld, study):
     return ""
 
 
-def observe(impl, doc):
+LOG_LEVELS = ("default", "info", "debug")
+
+
+class _Sink(object):
+    n = 0
+
+    def write(self, x):
+        _Sink.n += len(x)
+
+    def flush(self):
+        pass
+
+
+class LogLevel(object):
+    """the logging configuration is a dimension of every case.  "default": the
+    library used quietly (logging disabled, as the rest of the harness runs it).
+    "info" / "debug": what `maestro run -d 2` (the command line's default) /
+    `-d 1` set up through LoggerUtility.configure -- the root logger and the
+    maestrowf logger at that level with a formatting stream handler attached
+    (the stream is a sink), so every LOGGER.info/debug argument is rendered
+    and every isEnabledFor guard is entered.  Everything is restored on exit."""
+    FORMAT = "[%(asctime)s: %(levelname)s] [%(module)s: %(lineno)d] %(message)s"
+
+    def __init__(self, level):
+        self.level = level if level in LOG_LEVELS else "default"
+
+    def __enter__(self):
+        import logging
+        root, mw = logging.getLogger(), logging.getLogger("maestrowf")
+        self.saved = (root.manager.disable, root.level, mw.level, mw.propagate, logging.raiseExceptions)
+        self.handlers = []
+        if self.level == "default":
+            logging.disable(logging.CRITICAL)
+            return self
+        lvl = logging.INFO if self.level == "info" else logging.DEBUG
+        logging.disable(logging.NOTSET)
+        logging.raiseExceptions = False          # a malformed log message must not spam stderr
+        # (module-level logging.debug(...) calls in maestrowf make the logging module install
+        # a stderr handler on the root logger: park whatever is attached, put it back on exit)
+        self.parked = [(lg, list(lg.handlers)) for lg in (root, mw)]
+        for lg, hs in self.parked:
+            for h in hs:
+                lg.removeHandler(h)
+        for lg in (root, mw):
+            h = logging.StreamHandler(_Sink())
+            h.setLevel(lvl)
+            h.setFormatter(logging.Formatter(self.FORMAT))
+            lg.addHandler(h)
+            lg.setLevel(lvl)
+            self.handlers.append((lg, h))
+        return self
+
+    def __exit__(self, *a):
+        import logging
+        root, mw = logging.getLogger(), logging.getLogger("maestrowf")
+        for lg, h in self.handlers:
+            lg.removeHandler(h)
+        for lg, hs in getattr(self, "parked", []):
+            for h in list(lg.handlers):
+                lg.removeHandler(h)
+            for h in hs:
+                lg.addHandler(h)
+        disable, rl, ml, mp, rex = self.saved
+        root.setLevel(rl)
+        mw.setLevel(ml)
+        mw.propagate = mp
+        logging.raiseExceptions = rex
+        logging.disable(disable)
+        return False
+
+
+def forced_log(tag):
+    """a tag ending in @log=<level> fixes the case's logging configuration"""
+    if "@log=" in tag:
+        lv = tag.rsplit("@log=", 1)[1]
+        if lv in LOG_LEVELS:
+            return lv
+    return None
+
+
+def observe(impl, doc, log="default"):
     text = to_yaml(doc)
     ld = impl.yaml.load(io.StringIO(text), impl.yaml.FullLoader)
     if ld != loaded(doc):
         raise RuntimeError("YAML emitter / loader disagree on %r" % (text[:300],))
-    obs, detail = impl.run(text, stage_hygiene(ld))
+    with LogLevel(log):
+        obs, detail = impl.run(text, stage_hygiene(ld))
     bits = impl.js_bits(text)
     return obs, detail, bits
 
@@ -843,7 +933,8 @@ def gen_valid(rng, impl, prios):
     doc = Obj([("description", Obj([("name", rng.choice(["study", "my study", "s-1"])),
                                     ("description", "a generated study")]))])
     if rng.random() < 0.2:
-        doc.kv[0][1].kv.append(("extra", rng.choice(["x", 1, [1]])))
+        doc.kv[0][1].kv.append((rng.choice(["extra", "version", "date"]),
+                                rng.choice(["x", 1, [1], Flt(25, 1), True, None, Obj([("a", 1)]), "", "\u20ac"])))
     if env.kv or rng.random() < 0.5:
         doc.kv.append(("env", env))
     if rng.random() < 0.3:
@@ -962,6 +1053,45 @@ def shape_docs():
                     doc(Obj([V, ("dependencies", Obj([("git", [Obj([("name", "GD"), ("path", "p"), ("url", x)])])]))]))))
         out.append(("shape:git-path:%d" % k,
                     doc(Obj([V, ("dependencies", Obj([("git", [Obj([("name", "GD"), ("path", x), ("url", "u")])])]))]))))
+    return out
+
+
+DESC_VALUES = [("int", 2), ("zero", 0), ("float", Flt(15, 1)), ("true", True), ("false", False), ("null", None),
+               ("list", [1, "two", None]), ("empty-list", []), ("mapping", Obj([("major", 1), ("tags", ["a"])])),
+               ("empty-mapping", Obj()), ("empty-string", ""), ("unicode", "\u20ac \u2192 \u2713"),
+               ("multi-line", "line one\nline two"), ("percent", "100%s %(x)s {y}"), ("string", "plain")]
+
+
+def description_docs():
+    """the description block with EXTRA keys (the schema only asks for string
+    name / description) of every YAML type the document type has, each one
+    under every logging configuration"""
+    out = []
+    for key in ("version", "extra key"):
+        for nm, v in DESC_VALUES:
+            if key == "extra key" and nm not in ("int", "list", "null", "mapping"):
+                continue
+            for lg in LOG_LEVELS:
+                d = tiny_doc()
+                d.get("description").kv.append((key, copy.deepcopy(v)))
+                out.append(("desc:%s:%s@log=%s" % (key.replace(" ", "-"), nm, lg), d))
+    d = tiny_doc()
+    d.get("description").kv += [("version", 2), ("released", False), ("authors", ["x", Obj([("n", 1)])])]
+    for lg in LOG_LEVELS:
+        out.append(("desc:several@log=%s" % lg, d))
+    return out
+
+
+def description_raw_texts():
+    """YAML scalars the document type of the model has no constructor for
+    (dates, timestamps, binary, sets): raw texts, Python-side monitor"""
+    base = ('{"description": {"name": "n", "description": "d", "extra": %s}, "study": [{"name": "a", '
+            '"description": "da", "run": {"cmd": "echo a"}}]}')
+    out = []
+    for nm, v in (("date", "2024-01-02"), ("timestamp", "2024-01-02 03:04:05"), ("hex", "0x1F"), ("inf", ".inf"),
+                  ("nan", ".nan"), ("binary", "!!binary aGk="), ("set", "!!set {a, b}"), ("octal", "017")):
+        for lg in LOG_LEVELS:
+            out.append(("rawdesc:%s@log=%s" % (nm, lg), base % v))
     return out
 
 
@@ -1494,8 +1624,10 @@ def load_corpus():
     return res
 
 
-def case_json(tag, doc, obs=None, detail=None):
+def case_json(tag, doc, obs=None, detail=None, log=None):
     j = {"property": PID, "tag": tag, "doc": to_json(doc), "yaml": to_yaml(doc)}
+    if log is not None:
+        j["log"] = log
     if obs is not None:
         j["impl"] = {"class": obs[0], "steps": obs[1] if obs[0] == "A" else None, "detail": detail}
     return j
@@ -1539,7 +1671,7 @@ def raw_key_texts():
     return out
 
 
-def raw_text_case(ck, impl, tag, text):
+def raw_text_case(ck, impl, tag, text, log=None):
     """a YAML text outside the model's document type: never an internal error,
     accepted => exactly the text's steps"""
     try:
@@ -1547,8 +1679,12 @@ def raw_text_case(ck, impl, tag, text):
         hyg = stage_hygiene(ld)
     except Exception:
         hyg = False
-    obs, detail = impl.run(text, hyg)
-    ck.count(("raw", text), nontrivial=True)
+    log = log or forced_log(tag) or "default"
+    with LogLevel(log):
+        obs, detail = impl.run(text, hyg)
+    if obs[0] != "A" and log != "default":
+        detail = "%s [log=%s]" % (detail, log)
+    ck.count(("raw", text, log), nontrivial=True)
     ok = obs[0] != "I"
     if obs[0] == "A":
         try:
@@ -1559,7 +1695,7 @@ def raw_text_case(ck, impl, tag, text):
     if not ok:
         ck.violation("%s: implementation %s (%s) -- internal error or changed step list (raw YAML text, "
                      "Python-side monitor)" % (tag, obs[0], detail),
-                     {"property": PID, "tag": tag, "yaml_text": text,
+                     {"property": PID, "tag": tag, "yaml_text": text, "log": log,
                       "impl": {"class": obs[0], "steps": obs[1] if obs[0] == "A" else None, "detail": detail}})
     return ok
 
@@ -1749,6 +1885,7 @@ def build_cases(ck, impl, rng, tier):
     cases += exotic_docs(rng, prios)
     cases += reserved_docs()
     cases += shape_docs()
+    cases += description_docs()
     cases += alias_docs(rng, valids, 25 if quick else 400)
     cases += exhaustive_single(tiny_doc(), "exh-tiny")
     if not quick:
@@ -1777,11 +1914,16 @@ def evaluate(ck, impl, cases, tag="c13"):
     records, the literals (None outside H_word) and the failing indices"""
     recs, lits = [], []
     t_impl = time.time()
-    observed = observe_all(impl, [d for _, d in cases])
-    for (tg, doc), (obs, detail, bits) in zip(cases, observed):
+    # the logging configuration alternates over the cases (not doubled); a tag may fix it
+    logs = [forced_log(tg) or LOG_LEVELS[i % len(LOG_LEVELS)] for i, (tg, _) in enumerate(cases)]
+    observed = observe_all(impl, [(d, lg) for (_, d), lg in zip(cases, logs)])
+    for (tg, doc), lg, (obs, detail, bits) in zip(cases, logs, observed):
         cmp = comparable(doc)
         hw = h_word(doc)
-        recs.append({"tag": tg, "doc": doc, "obs": obs, "detail": detail, "bits": bits, "cmp": cmp, "hw": hw})
+        if obs[0] != "A" and lg != "default":
+            detail = "%s [log=%s]" % (detail, lg)
+        recs.append({"tag": tg, "doc": doc, "obs": obs, "detail": detail, "bits": bits, "cmp": cmp, "hw": hw,
+                     "log": lg})
         lits.append("(%s, %s, (%s, %s))" % (g_jv(doc), g_result(obs),
                                           common.g_list([common.g_bool(b) for b in bits]), common.g_bool(cmp))
                     if hw else None)
@@ -1797,7 +1939,7 @@ def evaluate(ck, impl, cases, tag="c13"):
                 r["obs"][0] == "A" and has_dup_keys(r["doc"])):
             ck.violation("%s: implementation %s (%s) -- internal error or changed step list (document outside "
                          "H_word, Python-side monitor)" % (r["tag"], r["obs"][0], r["detail"]),
-                         case_json(r["tag"], r["doc"], r["obs"], r["detail"]))
+                         case_json(r["tag"], r["doc"], r["obs"], r["detail"], r.get("log")))
     return recs, lits, bad, errs
 
 
@@ -1809,10 +1951,10 @@ def _worker_init():
     _W_IMPL = Impl()
 
 
-def _worker_obs(doc):
+def _worker_obs(item):
     n0 = _W_IMPL.stage_runs
     try:
-        obs, detail, bits = observe(_W_IMPL, doc)
+        obs, detail, bits = observe(_W_IMPL, item[0], item[1])
     except Exception as e:       # never let a worker die: the parent re-raises
         return None, repr(e), None, 0
     return obs, detail, bits, _W_IMPL.stage_runs - n0
@@ -1822,7 +1964,7 @@ def observe_all(impl, docs):
     """the implementation's observable for every document; big batches are
     spread over a few forked worker processes (each imports /repo itself)"""
     if len(docs) < 3000:
-        return [observe(impl, d) for d in docs]
+        return [observe(impl, d, lg) for d, lg in docs]
     import multiprocessing
     ctx = multiprocessing.get_context("fork")
     with ctx.Pool(min(6, max(2, common.NCPU // 3)), initializer=_worker_init) as pool:
@@ -1875,18 +2017,18 @@ def judge(ck, recs, lits, bad, errs, limit=4):
             if n in k5:
                 ck.known_hit(K5_ID, K5_WHAT)
             else:
-                cj = case_json(r["tag"], r["doc"], r["obs"], r["detail"])
+                cj = case_json(r["tag"], r["doc"], r["obs"], r["detail"], r.get("log"))
                 ck.violation(what + " -- C13_ok is false on the implementation's outcome", cj)
         elif (n in macc and r["cmp"] and r["obs"][0] == "D" and " in load:" not in r["detail"]):
             # "every accepted specification can be converted to steps, environment and
             # parameters": the implementation's own validation passed, the document breaks
             # no documented rule (the model accepts it: C13_monitor), a consumer refused it
-            cj = case_json(r["tag"], r["doc"], r["obs"], r["detail"])
+            cj = case_json(r["tag"], r["doc"], r["obs"], r["detail"], r.get("log"))
             ck.violation(what + " -- the specification passed verification and breaks no documented rule (the "
                          "model accepts it) but cannot be converted to an environment / steps / parameters / Study",
                          cj)
         if n in corr_bad or (n not in mon_bad):
-            cj = cj or case_json(r["tag"], r["doc"], r["obs"], r["detail"])
+            cj = cj or case_json(r["tag"], r["doc"], r["obs"], r["detail"], r.get("log"))
             det = ""
             if explained < limit:
                 explained += 1
@@ -1959,9 +2101,9 @@ def run(ck):
             raw_text_case(ck, impl, t, j["yaml_text"])
         elif d is None:
             ck.mismatch("unreadable corpus file %s" % t, j)
-    raws = raw_key_texts()
-    for tg, text in raws:
-        raw_text_case(ck, impl, tg, text)
+    raws = raw_key_texts() + description_raw_texts()
+    for k, (tg, text) in enumerate(raws):
+        raw_text_case(ck, impl, tg, text, forced_log(tg) or LOG_LEVELS[k % len(LOG_LEVELS)])
     ck.cov["raw_text_cases_nonstring_keys"] = len(raws)
     ck.cov["rule"] = ("documents = corpus + repo samples + generated valid specifications (full range of "
                       "schema-admitted values per key) + every single-point mutation of a small document "
@@ -2018,13 +2160,14 @@ def replay(ck, path):
         else:
             print("verdict (cli) : ok")
     if "yaml_text" in cj and "doc" not in cj:
-        ok = raw_text_case(ck, impl, cj.get("tag", "replay"), cj["yaml_text"])
+        ok = raw_text_case(ck, impl, cj.get("tag", "replay"), cj["yaml_text"], cj.get("log"))
         print("document      :", cj["yaml_text"][:2000])
         print("implementation:", impl.run(cj["yaml_text"], False))
         print("verdict       :", "ok" if ok else "FAIL")
         return 0 if ok and not cli_rc else 1
     doc = from_json(cj["doc"])
-    obs, detail, bits = observe(impl, doc)
+    obs, detail, bits = observe(impl, doc, cj.get("log") or forced_log(str(cj.get("tag", ""))) or "default")
+    print("logging       :", cj.get("log") or forced_log(str(cj.get("tag", ""))) or "default")
     lit = "(%s, %s, (%s, %s))" % (g_jv(doc), g_result(obs), common.g_list([common.g_bool(b) for b in bits]),
                                  common.g_bool(comparable(doc)))
     print("document      :", to_yaml(doc)[:2000])
